@@ -487,8 +487,14 @@ func (t *Collection) VisitItemsRandom(
 	}
 	blockStore = RandBm(blockStore)
 
+	// A block that ran out of items (only the last one can: the collection
+	// ends inside it) must not be visited again in the remaining rounds.
+	exhausted := make([]bool, len(blockStore))
 	for j := lenBlock + 1; j > 0; j-- {
 		for i, si := range blockStore {
+			if exhausted[i] {
+				continue
+			}
 			// The behaviour we want is to visit the first item in each of blockStore
 			// then on the second item update blockStore to point to that second item
 			// repeat for each item in the block
@@ -506,6 +512,9 @@ func (t *Collection) VisitItemsRandom(
 			err = t.VisitItemsAscendEx(si, true, vis)
 			if err != nil {
 				return err
+			}
+			if !first {
+				exhausted[i] = true // No successor item was seen.
 			}
 		}
 	}
